@@ -640,6 +640,11 @@ rule("D6.split_comma",
      "shim_split_comma ( $recv )",
      "str::split(',') collected into a Vec<&str> (iteration order preserved)")
 
+rule("D6.split_terminator_comma",
+     "$recv . split_terminator ( ',' )",
+     "shim_split_terminator_comma ( $recv )",
+     "str::split_terminator(',') collected into a Vec<&str> (as split(','), an empty trailing piece skipped)")
+
 rule("D8.format3",
      "format ! ( \"{}{}{}\" , $a:id , $b:id , $c:id )",
      "shim_concat3 ( $a , $b , $c )",
